@@ -210,7 +210,7 @@ pub fn bank_program(seed: u64, p: u64, cart_type: u8, rom_code: u8) -> (Vec<u8>,
   }
   // "peek" routines in bank 0: fixed-bank code that READS the switchable window through an
   // absolute address. The routine is translated once; what it reads must follow the bank.
-  for (k, &src) in [0x4001u16, 0x4201, 0x5001].iter().enumerate() {
+  for (k, &src) in [0x4002u16, 0x4201, 0x5001].iter().enumerate() {
     let mut a = Asm::new(0x3000 + 0x10 * k as u16);
     a.b(&[0xfa, src as u8, (src >> 8) as u8]); // LD A,(src)
     a.b(&[0x81, 0x4f, 0xc9]); // ADD A,C; LD C,A; RET
@@ -220,6 +220,24 @@ pub fn bank_program(seed: u64, p: u64, cart_type: u8, rom_code: u8) -> (Vec<u8>,
   // bank-0 tail that falls through 0x3FFF -> 0x4000
   for i in 0x3ff8..0x4000usize {
     image[i] = 0x0c; // INC C
+  }
+  // every other program ends bank 0 with an instruction that is cut by the boundary:
+  // ADD A,n with the opcode at 0x3FFF and n = the first byte of whatever bank is mapped
+  // (a one-byte instruction that differs from bank to bank, see below)
+  if p % 2 == 1 {
+    image[0x3fff] = 0xc6;
+  }
+  // the byte at 0x4000 of every bank: harmless as an instruction, different as an operand
+  for bank in 0..banks {
+    let first = [0x00u8, 0x0c, 0x14, 0x1c, 0x3c, 0x2f, 0x37, 0x3f][bank % 8];
+    let off = bank * 0x4000;
+    // shift the entry code at 0x4000 by one byte (it ends well before 0x4040)
+    let mut k = 0x3e;
+    while k > 0 {
+      image[off + k] = image[off + k - 1];
+      k -= 1;
+    }
+    image[off] = first;
   }
   // interrupt handlers: count and return
   for v in [0x40usize, 0x48, 0x50, 0x58, 0x60].iter() {
@@ -507,7 +525,9 @@ pub fn run(ctx: &mut Ctx) {
           if kind == "c03" && running && pc < 0x8000 {
             let entries = core.cache.verif_entries();
             let banks = core.cache.verif_region_banks();
-            let region = if pc < 0x4000 { 0usize } else { 1 };
+            // (blocks that begin at 0x3FFE/0x3FFF can hold operand bytes of the switchable bank
+            // and are cached with the bank since fix #23)
+            let region = if pc < 0x3ffe { 0usize } else { 1 };
             let key = ((banks[region] as u32) << 16) | pc as u32;
             invariant_checks += 1;
             if entries.len() > entries_before || restarted {
